@@ -136,13 +136,12 @@ class AbstractInterval(ABC):
             end = None
             strand = None
             alphabet = None
-            sequence_type = None
+            sequence_type = parent.sequence_type
             if parent.location:
                 start = parent.location.start
                 end = parent.location.end
                 strand = parent.location.strand.name
             if parent.sequence:
-                sequence_type = parent.sequence_type
                 seq_str = str(parent.sequence)
                 alphabet = parent.sequence.alphabet.name
             return {
